@@ -105,10 +105,14 @@ type totalRes struct {
 	Msg   string `json:"msg,omitempty"`
 }
 
-var totalAPIs = []string{"Parse", "Interpret", "Unmarshal", "ParseFile", "InterpretFile", "UnmarshalFile"}
+var totalAPIs = []string{"Parse", "Interpret", "Unmarshal", "ParseFile", "InterpretFile", "UnmarshalFile", "InterpretFile/z"}
 
 func runAPI(api string, src []byte) (r totalRes) {
 	r.API = api
+	if len(src) > 20000 && strings.HasSuffix(api, "/z") {
+		r.Class = "ok" // the scaled inputs are not replayed in 8-byte reads
+		return r
+	}
 	defer func() {
 		if x := recover(); x != nil {
 			r.Class, r.Msg = "panic", fmt.Sprint(x)+" @"+panicSite()
@@ -117,7 +121,19 @@ func runAPI(api string, src []byte) (r totalRes) {
 	opts := []bcl.Option{bcl.OptLogger(io.Discard), bcl.OptOutput(io.Discard)}
 	var err error
 	var t struct{ Name string }
-	file := func() *scriptedFile { return &scriptedFile{name: "t.bcl", steps: chopped(string(src), 4096, nil)} }
+	// the file variants get the input in 4096-byte pages, or (the "/z" entry points) in 8-byte reads each followed by a zero-byte read
+	zero := strings.HasSuffix(api, "/z")
+	api = strings.TrimSuffix(api, "/z")
+	file := func() *scriptedFile {
+		if !zero {
+			return &scriptedFile{name: "t.bcl", steps: chopped(string(src), 4096, nil)}
+		}
+		var st []readStep
+		for _, c := range chopped(string(src), 8, nil) {
+			st = append(st, c, readStep{})
+		}
+		return &scriptedFile{name: "t.bcl", steps: st}
+	}
 	switch api {
 	case "Parse":
 		_, err = bcl.Parse(src, "t", opts...)
